@@ -54,6 +54,24 @@ fn u06_int_unpack_total() {
     check_int_unpack_total::<11>();
 }
 
+// ---- backs the codec-trait contract ASSUMED by the Verus unit u06v: for Leb128 the unchecked reader and the
+// checked reader compute the same partial function and consume between 1 and data.len() bytes
+// (complete: all inputs up to one byte more than the longest encoding)
+#[kani::proof]
+#[kani::unwind(13)]
+fn u06_codec_reads_agree() {
+    let bytes: [u8; 11] = kani::any();
+    let n: usize = kani::any();
+    kani::assume(n <= 11);
+    let data = &bytes[..n];
+    let a = Leb128::read_unsigned(data);
+    let b = Leb128::try_read_unsigned(data).ok();
+    assert!(a == b);
+    if let Some((k, _)) = a {
+        assert!(k >= 1 && k <= n);
+    }
+}
+
 fn check_narrow_unpack_total<const N: usize>() {
     let bytes: [u8; N] = kani::any();
     let n: usize = kani::any();
